@@ -291,6 +291,12 @@ def check(ctx: Ctx):
     check_levels(ctx)
     check_objective(ctx)
     ctx.expect("OBJECTIVE", 1)
+    # the parameter vector and every other working array of the fit are float64 whatever the image's dtype (an integer or
+    # boolean image would truncate the candidate's position, radius and width)
+    from ..rules import spectrum as _spectrum
+
+    _spectrum.check_accumulator_dtype(ctx, ("droplets.image_analysis.refine_droplet",), image_params=("phase_field",))
+    ctx.expect("DTYPE", 1)
     fi = m.func(refine.QUAL)
     nonetest.check(ctx, fi, "droplet.interface_width", "the candidate's interface width")
     ctx.analysed(fi)
